@@ -91,3 +91,24 @@ pub fn drive_tf(out: &mut dyn std::io::Write, seed: u64, thorough: bool, cfg: &s
         }
     }
 }
+
+/// encrypt / decrypt in place on a caller-provided slice (C16: the block lives in guarded memory)
+pub fn tf_call_inplace(size: usize, key: &[u8], t0: u64, t1: u64, block: &mut [u8], decrypt: bool) {
+    macro_rules! go {
+        ($T:ty) => {{
+            let c = <$T>::with_tweak(GenericArray::from_slice(key), t0, t1);
+            let blk = GenericArray::from_mut_slice(block);
+            if decrypt {
+                c.decrypt_block(blk)
+            } else {
+                c.encrypt_block(blk)
+            }
+        }};
+    }
+    match size {
+        32 => go!(Threefish256),
+        64 => go!(Threefish512),
+        128 => go!(Threefish1024),
+        _ => panic!("harness: threefish size"),
+    }
+}
